@@ -69,7 +69,7 @@ Call(cc, pf, nblk, av, o) ==
 CanSwSet == IF FreeCanSw THEN {0, 1} ELSE {IF ready THEN 1 ELSE 0}
 
 NextB ==
-  /\ hist' = hist
+  /\ hist' = hist /\ s.ch[1].csl = 0            \* (half a frame buffered: only the second half may follow, see NextR)
   /\ \E c1 \in {c} \cup BwChanges(c) \cup ChChanges(c) \cup (IF VaryRate THEN RateChanges(c) ELSE {}) :
        \E sw \in CanSwSet, pf \in PfSet :
           LET cc == [c1 EXCEPT !.canSw = sw] IN
@@ -80,7 +80,7 @@ NextB ==
 NextR ==
   \/ NextB
   \/ /\ c.ms = 20 /\ hist' = hist
-     /\ \E o \in OrSet(c) : Call([c EXCEPT !.canSw = 0], 0, 1, 1, o)
+     /\ \E c1 \in {c} \cup BwChanges(c) : Legal(c1) /\ \E o \in OrSet(c1) : Call([c1 EXCEPT !.canSw = 0], 0, 1, 1, o)
 
 DepthOK == n <= Depth
 SpecB == InitB /\ [][NextB]_vars /\ WF_vars(NextB)
